@@ -34,13 +34,76 @@ while read -r C FN; do
 done < /tmp/selftest_$$.list
 rm -f /tmp/selftest_$$.list
 echo "selftest $P: $HIT of $TOTAL reverted repairs re-detected${SKIP:+; skipped:$SKIP}"
-python3 - "$P" "$TOTAL" "$HIT" "$MISS" "$SKIP" <<'PY'
+# second corpus: the independently seeded property-breaking changes that the check is
+# recorded to catch (seeded/<id>/meta.json); each is applied to a scratch copy and the
+# functions whose obligations failed then must fail again
+python3 - "$P" <<'PY' > /tmp/selftest_$$.seeds
+import json,sys,os,re,glob
+p=sys.argv[1]
+for f in sorted(glob.glob('/verif/seeded/%s-*/meta.json'%p)):
+    m=json.load(open(f))
+    if not m.get('check_run',{}).get('detected'): continue
+    fns=sorted({o.split('#')[0] for o in m['check_run']['obligations']})
+    if not fns: continue
+    print(m['seed'], '|'.join('^'+re.escape(x)+'$' for x in fns))
+PY
+STOT=0; SHIT=0; SMISS=""
+while read -r ID FN; do
+  [ -z "$ID" ] && continue
+  W=$(mktemp -d /tmp/gocv-selftest.XXXXXX)
+  (cd /repo && tar cf - --exclude=.git . ) | (cd $W && tar xf -)
+  if (cd $W && patch -p1 -s -f < $V/seeded/$ID/patch.diff >/dev/null 2>&1); then
+    STOT=$((STOT+1))
+    OUT=$(timeout 900 $BIN check -verif $V -repo $W -prop $P -func "$FN" -timeout 8 -noreplay 2>&1)
+    if echo "$OUT" | grep -q "^VIOLATION"; then SHIT=$((SHIT+1)); echo "selftest $P: seeded change $ID re-detected ($(echo "$OUT" | grep -c '^VIOLATION') obligations)";
+    else SMISS="$SMISS $ID"; echo "SELFTEST-MISS $P: seeded change $ID is NOT detected any more"; fi
+  else
+    echo "selftest $P: seeded change $ID does not apply to the current tree (skipped)"
+  fi
+  rm -rf $W
+done < /tmp/selftest_$$.seeds
+rm -f /tmp/selftest_$$.seeds
+echo "selftest $P: $SHIT of $STOT seeded changes re-detected"
+# third corpus: hand-written mutants for contracts that neither a repaired defect nor a seeded
+# change exercises (mutants.txt: exact-text replacements)
+MTOT=0; MHIT=0; MMISS=""
+N=0
+while IFS= read -r LINE; do
+  N=$((N+1))
+  case "$LINE" in "#"*|"") continue;; esac
+  MP=$(echo "$LINE" | awk -F' [|][|][|] ' '{print $1}')
+  [ "$MP" != "$P" ] && continue
+  W=$(mktemp -d /tmp/gocv-selftest.XXXXXX)
+  (cd /repo && tar cf - --exclude=.git . ) | (cd $W && tar xf -)
+  FN=$(LINE="$LINE" python3 - "$W" <<'PY'
+import os,sys
+prop,f,old,new,fn=[x for x in os.environ['LINE'].split(' ||| ')]
+old=old.replace('\\n','\n'); new=new.replace('\\n','\n')
+p=os.path.join(sys.argv[1],f); s=open(p).read()
+if old not in s:
+    print('!NOAPPLY'); sys.exit(0)
+open(p,'w').write(s.replace(old,new,1)); print(fn)
+PY
+)
+  if [ "$FN" = "!NOAPPLY" ]; then echo "selftest $P: mutant at mutants.txt:$N does not apply to the current tree (skipped)"; rm -rf $W; continue; fi
+  MTOT=$((MTOT+1))
+  OUT=$(timeout 900 $BIN check -verif $V -repo $W -prop $P -func "$FN" -timeout 8 -noreplay 2>&1)
+  if echo "$OUT" | grep -q "^VIOLATION"; then MHIT=$((MHIT+1)); echo "selftest $P: mutant mutants.txt:$N ($FN) detected ($(echo "$OUT" | grep -c '^VIOLATION') obligations)";
+  else MMISS="$MMISS mutants.txt:$N"; echo "SELFTEST-MISS $P: mutant mutants.txt:$N ($FN) is NOT detected"; fi
+  rm -rf $W
+done < $V/mutants.txt
+echo "selftest $P: $MHIT of $MTOT hand-written mutants detected"
+python3 - "$P" "$TOTAL" "$HIT" "$MISS" "$SKIP" "$STOT" "$SHIT" "$SMISS" "$MTOT" "$MHIT" "$MMISS" <<'PY'
 import json,sys
 p,total,hit,miss,skip=sys.argv[1],int(sys.argv[2]),int(sys.argv[3]),sys.argv[4].split(),sys.argv[5].split()
+stot,shit,smiss=int(sys.argv[6]),int(sys.argv[7]),sys.argv[8].split()
+mtot,mhit,mmiss=int(sys.argv[9]),int(sys.argv[10]),sys.argv[11].split()
 f='/verif/evidence/%s.json'%p
 try:
     d=json.load(open(f))
-    d['coverage']['selftest']={"what":"each recorded fix: commit reverted on a scratch copy, the check of the affected function must fail","reverted_repairs":total,"re_detected":hit,"not_detected":miss,"skipped_do_not_revert_cleanly":skip}
+    d['coverage']['selftest']={"what":"each recorded fix: commit reverted on a scratch copy, the check of the affected function must fail","reverted_repairs":total,"re_detected":hit,"not_detected":miss,"skipped_do_not_revert_cleanly":skip,
+      "seeded_changes":{"what":"every independently seeded change recorded as caught (seeded/<id>/meta.json) applied to a scratch copy; the functions whose obligations failed must fail again","applied":stot,"re_detected":shit,"not_detected":smiss},
+      "hand_written_mutants":{"what":"exact-text mutations listed in mutants.txt applied to a scratch copy; the named function's check must fail","applied":mtot,"detected":mhit,"not_detected":mmiss}}
     json.dump(d,open(f,'w'),indent=1)
 except Exception as e:
     print("selftest: evidence not updated:",e)
